@@ -10,11 +10,9 @@ AMBIENT = re.compile(
     r"std::process::id|std::thread::|std::net::|std::os::|std::hash::RandomState|"
     r"std::collections::hash_map::RandomState::new|std::collections::hash_map::DefaultHasher|"
     r"rand::|getrandom::)")
-ALLOWED_AMBIENT = {
-    ("main", "std::env::args"),
-    ("run", "std::env::current_dir"),
-    ("run", "std::fs::read_to_string"),
-}
+# the three ambient reads of the driver (main.rs, before evaluation starts);
+# each may occur once, in a crate-root function that the evaluator cannot reach
+ALLOWED_AMBIENT = ("std::env::args", "std::env::current_dir", "std::fs::read_to_string")
 HASH_ITER = re.compile(
     r"std::collections::(hash_map|hash_set|HashMap|HashSet)|"
     r"std::collections::hash::(map|set)::")
@@ -47,6 +45,10 @@ def rule_R19_1(ctx):
                    "process id, random state) can make two runs differ")
     n = 0
     seen = set()
+    graph = prog.call_graph()
+    evs = [g.path for g in prog.hand_fns() if not g.is_closure and g.module != ""]
+    inner = prog.reachable_from(evs, graph)     # everything the non-driver modules can reach
+    per_kind = {}
     for f, res, full, loc, c in all_calls(prog):
         if not AMBIENT.match(res):
             continue
@@ -59,8 +61,14 @@ def rule_R19_1(ctx):
             continue
         seen.add(key)
         r.inst("%s calls %s" % (f.path, res))
-        if key in ALLOWED_AMBIENT:
-            r.ok()
+        driver = f.root_fn().module == "" and f.root_fn().path not in inner
+        if res in ALLOWED_AMBIENT and driver:
+            per_kind[res] = per_kind.get(res, 0) + 1
+            if per_kind[res] == 1:
+                r.ok()
+            else:
+                r.fail("%s | second ambient read %s" % (f.path, res),
+                       "%s is read a second time (in %s)" % (res, f.path), where=loc)
         else:
             r.fail("%s | ambient=%s" % (f.path, res),
                    "%s reads ambient state through %s; only argv, the "
